@@ -295,6 +295,11 @@ class SafetyMonitor(Monitor):
         if step["op"] != op:
             sig["via"] = step["op"]
         diag = diagnose(op, p_in._loopir_proc, p_out._loopir_proc, call)
+        if monitor == "validate" and getattr(self, "_oos", None):
+            from .diagnosers import binder_kind
+
+            diag = dict(diag or {})
+            diag["oos_binder"] = binder_kind(p_in._loopir_proc, self._oos)
         if diag:
             sig["diag"] = diag
         d = {"inner": inner, "inner_op": op, "before": sstr(p_in, 3000), "after": sstr(p_out, 3000)}
@@ -326,6 +331,7 @@ class SafetyMonitor(Monitor):
         probs = irutil.validate(new_ir)
         ctx.stat("validate.calls")
         if probs and not probs_old:
+            self._oos = probs[0].get("sym")
             self.emit(sess, steps, step, "validate", probs[0]["kind"], tr, None, {"problems": probs})
             ctx.distinct(h)
             return True
